@@ -34,6 +34,7 @@ type Gen struct {
 	IllTyped  bool   // also generate raw ill-typed documents
 	Subsets   bool
 	ConcField []string // if set, field names are chosen among these instead of being symbolic
+	StopLinks []*refval.V // candidate links for a stop-at condition on a recursion clause
 }
 
 func (g *Gen) name(k string) string {
@@ -107,6 +108,11 @@ func (g *Gen) Gen(depth int, inRec bool) *Sel {
 			s.Depth = nd.Int64(g.name("depth"))
 		}
 		s.Subs = []*Sel{g.Gen(depth-1, true)}
+		if len(g.StopLinks) > 0 {
+			if k := nd.Choose(g.name("stopat"), len(g.StopLinks)+1); k > 0 {
+				s.StopAt = g.StopLinks[k-1]
+			}
+		}
 	case '@':
 	case 'x':
 		raws := []*refval.V{refval.MkInt(nd.Int64(g.name("xi"))), refval.MkString("a"), refval.MkMap(nil, nil), refval.MkList(),
